@@ -19,6 +19,7 @@ type Profile struct {
 	Reload   bool
 	Cascade  bool
 	HostileQ bool // ids and strings starting with "?"
+	MixedEvents bool // events may hold arrays of mixed scalar types (known finding D_UNSORTABLE_EVENT)
 	MaxFacts int
 	Weights  map[string]int
 }
@@ -26,7 +27,12 @@ type Profile struct {
 type Gen struct {
 	R *rand.Rand
 	P Profile
+	// Homogeneous: arrays in generated data hold elements of one scalar type
+	// (what the indexed state's rule index can take in an event).
+	Homogeneous bool
 }
+
+var homogeneous = [][]interface{}{{"x", "y", "tacos"}, {1.0, 2.0, 0.5}, {true, false}}
 
 var scalarVals = []interface{}{1.0, 2.0, "x", "y", true, nil, "tacos", 0.5}
 
@@ -46,11 +52,15 @@ func (g *Gen) value(depth int) interface{} {
 		return m
 	default:
 		// arrays of distinct scalars
-		perm := g.R.Perm(len(scalarVals))
+		pool := scalarVals
+		if g.Homogeneous {
+			pool = homogeneous[g.R.Intn(len(homogeneous))]
+		}
+		perm := g.R.Perm(len(pool))
 		k := g.R.Intn(4)
 		a := make([]interface{}, 0, k)
-		for i := 0; i < k; i++ {
-			a = append(a, scalarVals[perm[i]])
+		for i := 0; i < k && i < len(pool); i++ {
+			a = append(a, pool[perm[i]])
 		}
 		return a
 	}
@@ -223,16 +233,21 @@ func (g *Gen) Next() Op {
 	case "EnableRule":
 		op.Id, op.Flag = id, g.R.Intn(2) == 0
 	case "SetParents":
-		n := g.R.Intn(3)
-		for i := 0; i < n; i++ {
-			op.Names = append(op.Names, g.pick(g.P.Locs))
+		// distinct parents (a parent listed twice is visited twice by the code; not in any quantifier)
+		perm := g.R.Perm(len(g.P.Locs))
+		for i, n := 0, g.R.Intn(3); i < n && i < len(perm); i++ {
+			op.Names = append(op.Names, g.P.Locs[perm[i]])
 		}
 	case "ListRules":
 		op.Inh = g.P.Parents && g.R.Intn(2) == 0
 	case "SearchRules":
+		g.Homogeneous = !g.P.MixedEvents
 		op.Val, op.Inh = g.Fact(), g.P.Parents && g.R.Intn(2) == 0
+		g.Homogeneous = false
 	case "ProcessEvent":
+		g.Homogeneous = !g.P.MixedEvents
 		op.Val = g.Fact()
+		g.Homogeneous = false
 		delete(op.Val, "ttl")
 		delete(op.Val, "expires")
 	case "SetReadOnly":
